@@ -483,7 +483,11 @@ class NDNApp:
         :type name: :any:`NonStrictName`
         """
         name = Name.normalize(name)
-        del self._prefix_tree[name]
+        try:
+            del self._prefix_tree[name]
+        except KeyError:
+            # Registered without a callback (``register(name, None)``): there is only the route to withdraw
+            pass
         # Commands are issued one at a time, like in register()
         async with self._prefix_register_semaphore:
             await self._wait_for_new_command_timestamp()
